@@ -548,6 +548,11 @@ class SymStr:
 
         return models.model_join(self, it)
 
+    def translate(self, table):
+        from sx import models
+
+        return models.model_translate(self, table)
+
     def __getattr__(self, name):
         if name.startswith("__"):
             raise AttributeError(name)
